@@ -496,6 +496,7 @@ class DestHandler:
         self.states.step = TransactionStep.IDLE
         if clear_packet_queue:
             self._pdus_to_be_sent.clear()
+            self.states._num_packets_ready = 0
 
     def reset(self) -> None:
         """This function is public to allow completely resetting the handler, but it is explicitly
